@@ -30,7 +30,6 @@ SerJudgeC07(ln) ==
   /\ ln.size > 0
   /\ ln.alloc_ret = ln.size /\ ln.alloc_size = ln.size /\ ln.alloc_block = ln.size   \* a buffer of exactly that size
   /\ Len(ln.bytes) = ln.size
-  /\ ln.alloc_reqs = 1
 SernJudge(ln, c) ==
   /\ ln.ret = (IF ln.n >= c.size THEN c.size ELSE 0)    \* the fixed-buffer contract
   /\ ln.ret2 = ln.ret
